@@ -199,3 +199,17 @@ def _saturate(prog):
 
 # canaries/engine: log1p(-sigmoid(z)) (bad) / -softplus(z) (good)
 canary.register("C19", "engine", _saturate, "NUM-SATURATE")
+
+
+def _pers_hist(prog):
+    from .rules.c15 import pers_hist_rule
+
+    class Ctx:
+        p = prog
+        pers_hist_floor = 1
+
+    return pers_hist_rule(Ctx()).findings
+
+
+# canaries/engine: a bound widened to the training inputs kept in a plain attribute (bad) / in a persistent buffer (good)
+canary.register("C15", "engine", _pers_hist, "PERS-HIST")
